@@ -119,11 +119,12 @@ CHECKS = {
     ),
     "C13": dict(
         level="model_checking",
-        engine="S+H",
+        engine="S+H+W",
         technique="explicit-state BFS over request-outcome histories with the published counters audited after every step + exhaustive preemption-bounded schedule exploration of overlapping requests audited at quiescence",
         text="Every history up to the depth over {ok, 404, 500, refused, aborted-mid-body requests, eject-all, clock steps} with breaker and limiter on/off under the five strategies is replayed and after every step the numbers published by the real /v1/metrics and /v1/backends handlers are audited against the harness' tallies (requests issued, exactly one outcome per request, per-backend totals equal requests actually sent by the stubs, both gauges equal in-flight = 0). 2-3 overlapping requests (one aborting, one failing) on a shared backend are explored under all interleavings up to the preemption bound and audited at quiescence.",
-        note="Rate-limited, breaker-rejected and no-healthy-backend outcomes arise from the history (bucket of 3, failure_threshold 3, eject-all) rather than being injected; an abort is the real ErrAbortHandler path of httputil.ReverseProxy (ServerContextKey present). Real client disconnects are covered by the wire-level part of C03.",
+        note="Rate-limited, breaker-rejected and no-healthy-backend outcomes arise from the history (bucket of 3, failure_threshold 3, eject-all) rather than being injected; an abort is the real ErrAbortHandler path of httputil.ReverseProxy (ServerContextKey present). Wire part: sequences of real outcomes (ok, 500, refused, reset mid-body = real ErrAbortHandler behind net/http, real client disconnect, rate-limited, breaker-rejected, no-healthy-backend) with 1-8 concurrent clients against fresh instances over real connections, audited through the real admin endpoints at quiescence (at wire level a refused connection cannot be counted by the backend, so per-backend totals are bounded from both sides instead of compared for equality).",
         jobs=[
+            dict(name="c13w", part="W", pkg=MAIN, run="TestVerifC13W", mode="plain", gomaxprocs=4, shards=dict(quick=14, thorough=16), timeout=dict(quick=600, thorough=3000)),
             dict(name="c13h", part="H", pkg=LB, run="TestVerifC13H", mode="instr", shards=dict(quick=8, thorough=16), timeout=dict(quick=600, thorough=3000)),
             dict(name="c13s", part="S", pkg=LB, run="TestVerifC13S", mode="instr", shards=dict(quick=4, thorough=8), timeout=dict(quick=600, thorough=3000)),
         ],
